@@ -86,6 +86,7 @@ func main() {
 	verif := flag.String("verif", "", "verif dir (default: parent of the binary's dir)")
 	only := flag.String("only", "", "evaluate only rules with this id prefix")
 	mutant := flag.String("mutant", "", "internal: evaluate with this mutant applied and print obligations as JSON")
+	seedPatch := flag.String("seedpatch", "", "internal: evaluate with this unified diff applied in memory and print the rules that fired")
 	list := flag.Bool("list", false, "list properties and rules")
 	noSelf := flag.Bool("noselftest", false, "thorough without the mutant self-test")
 	dump := flag.Bool("dump", false, "print the registry as JSON (used by tools/gen_manifest.py)")
@@ -204,6 +205,9 @@ func main() {
 	if *mutant != "" {
 		os.Exit(runMutantChild(prop, *repo, *mutant))
 	}
+	if *seedPatch != "" {
+		os.Exit(runSeedChild(prop, *repo, *seedPatch))
+	}
 
 	start := time.Now()
 	var obs []*Ob
@@ -250,8 +254,22 @@ func main() {
 	}
 	stats["build_configurations"] = cfgNames
 	var selftest map[string]any
-	if *tier == "thorough" && !*noSelf && len(prop.Mutants) > 0 && *only == "" {
-		selftest = runSelfTest(prop, *repo)
+	if *tier == "thorough" && !*noSelf && *only == "" {
+		if len(prop.Mutants) > 0 {
+			selftest = runSelfTest(prop, *repo)
+		}
+		if st := runSeedTest(prop, *repo); st != nil {
+			if selftest == nil {
+				selftest = map[string]any{}
+			}
+			selftest["seeded_changes"] = st
+		}
+		if rt := runRefactorTest(prop, *repo); rt != nil {
+			if selftest == nil {
+				selftest = map[string]any{}
+			}
+			selftest["behaviour_preserving_patches"] = rt
+		}
 	}
 	code := finish(*verif, prop, *tier, seed, obs, notes, stats, time.Since(start).Seconds(), selftest)
 	os.Exit(code)
@@ -435,4 +453,132 @@ func runAll(repo, verif string) int {
 		return 1
 	}
 	return 0
+}
+
+// runSeedTest: the independently seeded breaking changes of this property as self-test cases.
+func runSeedTest(prop *Property, repo string) map[string]any {
+	cases := seedCasesFor(verifDir, prop.ID)
+	if len(cases) == 0 {
+		return nil
+	}
+	type res struct {
+		Name, Status string
+		Fired        []string
+	}
+	results := make([]res, len(cases))
+	sem := make(chan struct{}, 4)
+	var wg sync.WaitGroup
+	for i, sc := range cases {
+		wg.Add(1)
+		go func(i int, sc seedCase) {
+			defer wg.Done()
+			sem <- struct{}{}
+			defer func() { <-sem }()
+			r := res{Name: sc.Name}
+			outb, err := exec.Command(os.Args[0], "-prop", prop.ID, "-repo", repo, "-verif", verifDir, "-seedpatch", sc.Patch).Output()
+			if err != nil {
+				r.Status = "child failed: " + err.Error()
+				results[i] = r
+				return
+			}
+			var o struct {
+				Status, Why string
+				Fired       []string
+			}
+			lines := strings.Split(strings.TrimSpace(string(outb)), "\n")
+			if json.Unmarshal([]byte(lines[len(lines)-1]), &o) != nil {
+				r.Status = "bad child output"
+			} else {
+				r.Status = o.Status
+				if o.Why != "" {
+					r.Status += ": " + o.Why
+				}
+				r.Fired = o.Fired
+			}
+			results[i] = r
+		}(i, sc)
+	}
+	wg.Wait()
+	caught, applicable := 0, 0
+	var rows []any
+	for _, r := range results {
+		if r.Status == "evaluated" {
+			applicable++
+			if len(r.Fired) > 0 {
+				caught++
+			} else {
+				fmt.Printf("SEEDTEST-MISS property=%s seed=%s no rule reported the seeded change\n", prop.ID, r.Name)
+			}
+		} else {
+			fmt.Printf("SEEDTEST-NOTE property=%s seed=%s %s\n", prop.ID, r.Name, r.Status)
+		}
+		rows = append(rows, map[string]any{"seed": r.Name, "status": r.Status, "caught": len(r.Fired) > 0, "fired": r.Fired})
+	}
+	fmt.Printf("seedtest: %d/%d applicable seeded changes reported (of %d)\n", caught, applicable, len(results))
+	return map[string]any{"seeds": len(results), "applicable": applicable, "caught": caught, "results": rows,
+		"note": "each case is an independently produced breaking change (seeded/<id>/patch.diff: compiles, passes the suite, fails its demonstration) applied to the current source in memory; the property's rules must report a violation that is not a known finding. Evidence about the checker only."}
+}
+
+// runRefactorTest: the stored behaviour-preserving patches (/verif/refactors/*/refactor_k.diff)
+// are applied to the current source in memory, one at a time; the property's rules must stay
+// silent (apart from known findings). A report here is a false alarm of the checker. Evidence
+// about the checker only.
+func runRefactorTest(prop *Property, repo string) map[string]any {
+	files, _ := filepath.Glob(filepath.Join(verifDir, "refactors", "*", "refactor_*.diff"))
+	if len(files) == 0 {
+		return nil
+	}
+	sort.Strings(files)
+	type res struct {
+		Name, Status string
+		Fired        []string
+	}
+	results := make([]res, len(files))
+	sem := make(chan struct{}, 6)
+	var wg sync.WaitGroup
+	for i, f := range files {
+		wg.Add(1)
+		go func(i int, f string) {
+			defer wg.Done()
+			sem <- struct{}{}
+			defer func() { <-sem }()
+			r := res{Name: filepath.Base(filepath.Dir(f)) + "/" + filepath.Base(f)}
+			outb, err := exec.Command(os.Args[0], "-prop", prop.ID, "-repo", repo, "-verif", verifDir, "-seedpatch", f).Output()
+			if err != nil {
+				r.Status = "child failed: " + err.Error()
+				results[i] = r
+				return
+			}
+			var o struct {
+				Status, Why string
+				Fired       []string
+			}
+			lines := strings.Split(strings.TrimSpace(string(outb)), "\n")
+			if json.Unmarshal([]byte(lines[len(lines)-1]), &o) != nil {
+				r.Status = "bad child output"
+			} else {
+				r.Status = o.Status
+				r.Fired = o.Fired
+			}
+			results[i] = r
+		}(i, f)
+	}
+	wg.Wait()
+	silent, applicable := 0, 0
+	var alarms []any
+	for _, r := range results {
+		if r.Status != "evaluated" {
+			continue
+		}
+		applicable++
+		if len(r.Fired) == 0 {
+			silent++
+		} else {
+			fmt.Printf("REFACTOR-ALARM property=%s patch=%s fired=%v\n", prop.ID, r.Name, r.Fired)
+			alarms = append(alarms, map[string]any{"patch": r.Name, "fired": r.Fired})
+		}
+	}
+	fmt.Printf("refactortest: %d/%d applicable behaviour-preserving patches leave the property's rules silent (of %d)\n", silent, applicable, len(results))
+	return map[string]any{"patches": len(results), "applicable": applicable, "silent": silent, "alarms": alarms,
+		"note": "each patch is a behaviour-preserving edit written by an independent agent (extract helper, rename, if↔switch, loop form, move); applied in memory; any rule that fires on it is a false alarm of the checker (the two known ones are explained in DESIGN.md §10)."}
 }
